@@ -23,6 +23,9 @@ type celValidator struct {
 	structName string
 	ruleName   string
 	parentPath string
+
+	// unsupported collects the CEL constructs of the expression being converted that have no Go translation.
+	unsupported []string
 }
 
 var _ validator.Validator = (*celValidator)(nil)
@@ -208,10 +211,24 @@ func (c *celValidator) convertCELToGo(celExpr, fieldName string) (string, error)
 
 	// Convert CEL AST to Go expression string
 	// Use the parsed AST directly to avoid deprecated methods
+	c.unsupported = nil
+
 	//nolint:staticcheck // ast.Expr() is deprecated but still functional
 	goExpr := c.convertASTToGo(ast.Expr(), fieldName)
 
+	// A construct without a translation is rendered as the literal true: the rule would silently always pass.
+	if len(c.unsupported) > 0 {
+		return "", fmt.Errorf("unsupported CEL construct: %s", strings.Join(c.unsupported, ", "))
+	}
+
 	return goExpr, nil
+}
+
+// fallback renders a construct that has no Go translation and records it, so that the conversion as a whole fails.
+func (c *celValidator) fallback(construct string) string {
+	c.unsupported = append(c.unsupported, construct)
+
+	return trueFallback
 }
 
 // convertASTToGo recursively converts CEL AST nodes to Go expression strings.
@@ -232,7 +249,7 @@ func (c *celValidator) convertASTToGo(expr *exprpb.Expr, fieldName string) strin
 	case *exprpb.Expr_ComprehensionExpr:
 		return c.convertComprehensionExpr(expr.GetComprehensionExpr(), fieldName)
 	default:
-		return trueFallback // fallback
+		return c.fallback(fmt.Sprintf("expression kind %T", expr.ExprKind))
 	}
 }
 
@@ -280,7 +297,7 @@ func (c *celValidator) convertCallToGo(callExpr *exprpb.Expr_Call, fieldName str
 	}
 
 	// Fallback for unknown functions
-	return trueFallback
+	return c.fallback("function " + function)
 }
 
 // convertOperator converts CEL operators to Go operators.
@@ -683,7 +700,7 @@ func (c *celValidator) convertMethodCall(method string, target *exprpb.Expr, arg
 	}
 
 	// Fallback for unknown method calls
-	return trueFallback
+	return c.fallback("method " + method)
 }
 
 // convertListExpr converts list expressions like ['a', 'b', 'c'].
